@@ -173,12 +173,14 @@ fn io_fault_sessions(thorough: bool) -> (u64, Vec<Violation>) {
     let progs: Vec<(&str, Files, Vec<Op>)> = vec![
         ("put-get-delete-get-list on {f:c0}", init_tree(true), vec![put("f", Exp::HashOf(C0.to_vec()), X), Op::Get { path: "f".into() }, Op::Delete { path: "f".into(), expected: Exp::HashOf(X.to_vec()) }, Op::Get { path: "f".into() }, Op::List]),
         ("put-new-dir, stale put, delete on {f:c0}", init_tree(true), vec![put("d/g", Exp::Absent, Z), put("f", Exp::HashOf(b"stale".to_vec()), Y), Op::Delete { path: "f".into(), expected: Exp::HashOf(C0.to_vec()) }, Op::List]),
+        ("put believing f absent, get, delete believing absent on {f:c0}", init_tree(true), vec![put("f", Exp::Absent, X), Op::Get { path: "f".into() }, Op::Delete { path: "f".into(), expected: Exp::Absent }, Op::Get { path: "f".into() }]),
     ];
     let errnos: Vec<i32> = if thorough { vec![13, 28, 5] } else { vec![13] };
-    let jobs: Vec<(usize, i32)> = (0..progs.len()).flat_map(|i| errnos.iter().map(move |e| (i, *e))).collect();
+    // (program, errno, read-side calls counted too)
+    let jobs: Vec<(usize, i32, bool)> = (0..progs.len()).flat_map(|i| errnos.iter().map(move |e| (i, *e, false)).chain([(i, 13, true)])).collect();
     let res: Vec<(u64, Vec<Violation>)> = jobs
         .par_iter()
-        .map(|&(pi, errno)| {
+        .map(|&(pi, errno, reads)| {
             let (name, init, prog) = &progs[pi];
             let mut runs = 0u64;
             let mut out = Vec::new();
@@ -218,7 +220,7 @@ fn io_fault_sessions(thorough: bool) -> (u64, Vec<Violation>) {
                     recs.push(OpRec { client: 0, op: op.clone(), expected, inv: 2 * i, resp: None, reply: None });
                 }
                 let mut cmd = std::process::Command::new(cli_bin());
-                cmd.arg("serve").arg(&root).env("RUST_LOG", "off").env("LD_PRELOAD", crate::e3::SHIM).env("VSHIM_ROOT", &root).env("VSHIM_LOG", &logp).stdin(std::process::Stdio::piped()).stdout(std::process::Stdio::piped()).stderr(std::process::Stdio::null());
+                cmd.arg("serve").arg(&root).env("RUST_LOG", "off").env("LD_PRELOAD", crate::e3::SHIM).env("VSHIM_ROOT", &root).env("VSHIM_LOG", &logp).env("VSHIM_COUNT_READS", if reads { "1" } else { "0" }).stdin(std::process::Stdio::piped()).stdout(std::process::Stdio::piped()).stderr(std::process::Stdio::null());
                 match k {
                     Some(k) => {
                         cmd.env("VSHIM_MODE", "inject").env("VSHIM_KILL_AT", u64::MAX.to_string()).env("VSHIM_FAIL_AT", k.to_string()).env("VSHIM_FAIL_ERRNO", errno.to_string());
@@ -265,7 +267,7 @@ fn io_fault_sessions(thorough: bool) -> (u64, Vec<Violation>) {
                 if !ok {
                     let ops: Vec<String> = recs.iter().map(|o| format!("{} -> {}", op_label(&o.op), o.reply.as_ref().map_or("(no reply)".into(), reply_label))).collect();
                     out.push(
-                        Violation::new("io_error_unexplainable", format!("[{name}] with the server's mutating libc call #{k} failing (errno {errno}): replies + final tree match no one-at-a-time execution (error replies = no effect, missing replies = maybe): {ops:?}; final tree {:?}", live(&tree).iter().map(|(p, b)| (p.clone(), String::from_utf8_lossy(b).into_owned())).collect::<Vec<_>>()), json!({"io_fault": {"program": name, "k": k, "errno": errno}}))
+                        Violation::new("io_error_unexplainable", format!("[{name}] with the server's libc call #{k}{} failing (errno {errno}): replies + final tree match no one-at-a-time execution (error replies = no effect, missing replies = maybe): {ops:?}; final tree {:?}", if reads { " (reads counted)" } else { " (mutating)" }, live(&tree).iter().map(|(p, b)| (p.clone(), String::from_utf8_lossy(b).into_owned())).collect::<Vec<_>>()), json!({"io_fault": {"program": name, "k": k, "errno": errno, "reads": reads}}))
                             .with("cause", json!("io_error")),
                     );
                     if out.len() >= 2 {
